@@ -106,6 +106,18 @@ func (c *Ctx) Inconclusive(why string) {
 	c.mu.Unlock()
 }
 
+// NewCtx builds a stand-alone context (used by the native fuzz target, which runs outside RunCheck).
+func NewCtx(check, id string, t *testing.T) *Ctx {
+	return &Ctx{Check: check, ID: id, Seed: 1, Tier: "fuzz", T: t, Rng: rand.New(rand.NewSource(1)), counters: map[string]int64{}, nontrivial: map[string]bool{}}
+}
+
+// Violations returns the violations recorded so far.
+func (c *Ctx) Violations() []Violation {
+	c.mu.Lock()
+	defer c.mu.Unlock()
+	return append([]Violation(nil), c.violations...)
+}
+
 // Case is one deterministic case.
 type Case struct {
 	ID     string
